@@ -22,8 +22,8 @@ PROPERTY = "C05"
 LEVEL = "fault_enumeration"
 RULE = (
     "A case is a list of sends, each with a per-attempt script of peer reactions "
-    "(kind x delay class), optionally followed by a send after failure, an RSTACK and a recovery "
-    "send.  Single-send scripts are enumerated exhaustively up to the tier's prefix depth of "
+    "(kind x delay class), optionally followed by a send after failure, (optionally the host's own RST "
+    "and another send before the RSTACK,) an RSTACK and a recovery send.  Single-send scripts are enumerated exhaustively up to the tier's prefix depth of "
     "non-terminating reactions x every terminating reaction (and sampled beyond); multi-send "
     "cases with queued concurrent callers are seeded-random.  Non-trivial = at least one "
     "retransmission, failure or boundary-instant reaction occurred; distinct = distinct decoded "
@@ -41,7 +41,8 @@ REACH = {
         "ack_at_boundary_before_timer", "ack_at_boundary_after_timer", "nak_at_boundary",
         "error_while_pending", "error_while_idle", "queued_send_failed", "send_after_failure_raised",
         "recovery_after_rstack", "immediate_retry_on_nak", "timeout_retry", "piggyback_ack",
-        "rstack_while_pending", "three_sends_queued", "timeout_at_floor", "old_acknum_delivered"]
+        "rstack_while_pending", "three_sends_queued", "timeout_at_floor", "old_acknum_delivered",
+        "send_between_host_rst_and_rstack_on_failed_link"]
     for t in ("quick", "thorough")
 }
 SHARD_TIMEOUT = {"quick": 600, "thorough": 3000}
@@ -220,6 +221,18 @@ def run_case(case, acc: Acc | None = None):
             await do_send(nxt)
             nxt += 1
             await vloop.settle(loop, 4)
+            if case["followup"] == "rst":
+                # the host asks for a reset itself; until the RSTACK has *arrived* the link is as
+                # failed as before: a send in that window must not put a DATA frame on the wire
+                trace.append(("host_rst", clock()))
+                try:
+                    proto.send_reset()
+                except BaseException as e:  # noqa: BLE001
+                    trace.append(("host_rst_raised", clock(), repr(e)))
+                scripts[nxt] = [("ack", "0")]
+                await do_send(nxt)
+                nxt += 1
+                await vloop.settle(loop, 4)
             loop.io_at(clock() + 0.05, deliver, "rstack", 0x0B)
             await asyncio.sleep(0.1)
             scripts[nxt] = [("ack", "d")]
@@ -499,6 +512,14 @@ def judge_case(acc: Acc, case):
         if e[0] == "ret" and seen_rstack_after_fail:
             acc.hit("recovery_after_rstack")
             break
+    failed_before_rst = False
+    for e in trace:
+        if e[0] == "up_reset" or (e[0] == "rx" and e[2] == "err"):
+            failed_before_rst = True
+        if e[0] == "rx" and e[2] == "rstack":
+            failed_before_rst = False
+        if e[0] == "host_rst" and failed_before_rst:
+            acc.hit("send_between_host_rst_and_rstack_on_failed_link")
     for snd in case["sends"]:
         for r in snd:
             if len(r) > 1 and r[1] in ("T-", "T+") and not info["boundary_unknown"]:
@@ -555,7 +576,7 @@ def gen_cases(tier, seed):
         singles = single_scripts(3, 3000, maxa, rnd) + [list(p) for p in itertools.product(NT[:7], repeat=maxa)]
         nmulti = 30000
     for i, s in enumerate(singles):
-        cases.append({"sends": [s], "followup": True})
+        cases.append({"sends": [s], "followup": "rst" if i % 3 == 1 else True})
         if i % 7 == 0:
             cases.append({"sends": [s, [("ack", "0")]], "concurrent": 1, "followup": False})
     for code in (0x51, 0x80):
@@ -575,7 +596,7 @@ def gen_cases(tier, seed):
                 sc.append(rnd.choice(TERM))
             sends.append(sc)
         cases.append({"sends": sends, "concurrent": rnd.choice([n, n, max(1, n - 1)]),
-                      "followup": rnd.random() < 0.5})
+                      "followup": rnd.choice([False, False, True, "rst"])})
     return cases
 
 
